@@ -86,10 +86,45 @@ func secString(alts []oaSec) string {
 }
 
 func judgeCase(rec *caseRecord, sum *jSummary) {
+	// hostile inputs (C14's input language: raw annotation properties, arbitrary validator tags, unsupported type shapes) carry
+	// expectations for termination and closure only
+	hostile := false
+	for _, c := range rec.Case.Ctrls {
+		for _, s := range c.Sec {
+			hostile = hostile || s.RawProps != ""
+		}
+	}
+	for _, m := range rec.Case.Methods {
+		for _, s := range m.Sec {
+			hostile = hostile || s.RawProps != ""
+		}
+		for _, a := range m.Anns {
+			hostile = hostile || a.RawProps != ""
+		}
+	}
+	for _, t := range rec.Case.Types {
+		hostile = hostile || t.Name == "Hostile"
+	}
+	relevant := func(prop string) bool { return !hostile || prop == "C14" || prop == "C08" }
+	startIdx := len(sum.Findings)
+	defer func() {
+		kept := sum.Findings[:startIdx]
+		for _, f := range sum.Findings[startIdx:] {
+			if relevant(f.Prop) {
+				kept = append(kept, f)
+			}
+		}
+		sum.Findings = kept
+	}()
 	add := func(prop, what string, more ...string) {
-		sum.Findings = append(sum.Findings, jFinding{ID: rec.ID, Prop: prop, What: what, Class: "violation", More: more})
+		if relevant(prop) {
+			sum.Findings = append(sum.Findings, jFinding{ID: rec.ID, Prop: prop, What: what, Class: "violation", More: more})
+		}
 	}
 	eval := func(prop string, nontrivial bool) {
+		if !relevant(prop) {
+			return
+		}
 		sum.Evaluated[prop]++
 		if nontrivial {
 			sum.NonTrivial[prop]++
@@ -421,6 +456,11 @@ func judgeCase(rec *caseRecord, sum *jSummary) {
 		if !accepted(r) || r.Spec == nil || exp.Components == nil || len(pc.Types) == 0 {
 			return
 		}
+		for _, t := range pc.Types {
+			if t.Kind == "raw" || t.Name == "Hostile" {
+				return // hostile inputs (C14) carry no schema expectation
+			}
+		}
 		var comps []struct {
 			Name   string `json:"name"`
 			Schema any    `json:"schema"`
@@ -534,7 +574,7 @@ func judgeCase(rec *caseRecord, sum *jSummary) {
 			add("C08", fmt.Sprintf("%s (%s): response without description: %s", name, r.Spec.Version, x))
 		}
 		for _, x := range c.EnumTypeIssues {
-			sum.Findings = append(sum.Findings, jFinding{ID: rec.ID, Prop: "C08", Class: "candidate:enum-type", What: fmt.Sprintf("%s (%s): %s", name, r.Spec.Version, x)})
+			sum.Findings = append(sum.Findings, jFinding{ID: rec.ID, Prop: "C08", Class: "known:enum-type", What: fmt.Sprintf("%s (%s): %s", name, r.Spec.Version, x)})
 		}
 		if r.Spec.Version != "" {
 			wantV := pc.Cfg.Version
